@@ -5,7 +5,27 @@
    [load_main fs main] is metamodel_from_file(main) for the folder contents [fs]
    (namespace name -> imports and rules with their references); [spec_resolve fs cur name] is
    the documented resolution computed from the file contents alone. *)
-From TxV Require Import Core.Base Model.Imports Proofs.ImportsProofs.
+From TxV Require Import Core.Base Gen.SrcImports Model.Imports Proofs.ImportsProofs.
+
+(* ---- tie to the current source (Gen/SrcImports.v is regenerated from textx/metamodel.py) ---- *)
+
+(* The look-up driven by the search steps found in TextXMetaModel.__getitem__ (their order,
+   the slice/reversal of the import list, the place where a qualified name is split) is the
+   documented look-up.  Re-proved on every run; fails when the source searches differently. *)
+Theorem C25_source_lookup_order : forall s cur name, lookup s cur name = lookup_doc s cur name.
+Proof. exact lookup_src_doc. Qed.
+Print Assumptions C25_source_lookup_order.
+
+(* _new_import as found in the source registers the import on every import statement (not only
+   when the file is loaded), normalises the import name, a new namespace starts with the
+   built-in namespace as its only import, and _cls_fqn builds namespace "." rule name. *)
+Theorem C25_source_imports :
+  (forall rec stk cur imp s, new_import rec stk cur imp s = new_import_doc rec stk cur imp s) /\
+  (forall cur imp, abs_import cur imp = norm_dots (rel_import cur imp)) /\
+  initial_imports = [BASE] /\
+  (forall c, fqn c = fqn_doc c).
+Proof. exact (conj new_import_src_doc (conj abs_import_normalised (conj initial_imports_base fqn_src_doc))). Qed.
+Print Assumptions C25_source_imports.
 
 (* ---- the look-up itself, for every meta-model state and any number of imports ---- *)
 
@@ -49,6 +69,19 @@ Theorem C25_resolution_order : forall fs main,
 Proof. exact links_spec. Qed.
 Print Assumptions C25_resolution_order.
 
+(* The same for import cycles that are harmless: every followed import (importer, imported)
+   of a grammar still being loaded is such that each unqualified name written in the importer
+   is defined by the importer itself, is a built-in, or is not defined by the imported grammar
+   ([safe], a decidable predicate on the file contents and the log; self-imports always
+   qualify).  Its negation is exactly the class of the known finding. *)
+Theorem C25_resolution_order_cycles : forall fs main,
+  aget BASE fs = None -> main <> BASE ->
+  serr (load_main fs main) = None -> safe fs (load_main fs main) = true ->
+  forall l, In l (links (load_main fs main)) ->
+    option_map cls_key (l_target l) = spec_resolve fs (l_ns l) (l_name l).
+Proof. exact links_spec_safe. Qed.
+Print Assumptions C25_resolution_order_cycles.
+
 (* metamodel[name] after ANY successful load (import cycles included) is the documented rule
    as seen from the main grammar ... *)
 Theorem C25_metamodel_getitem : forall fs main,
@@ -75,18 +108,19 @@ Theorem C25_fqn : forall fs main, main <> BASE ->
 Proof. exact classes_fqn. Qed.
 Print Assumptions C25_fqn.
 
-(* One class per (grammar file, rule): two table entries never share a class object, and
-   (with C25_fqn) an entry's class is determined by its namespace and rule name, however
-   many import paths lead to the file. *)
-Theorem C25_one_class_set_per_file_partial : forall fs main, main <> BASE ->
-  forall a n c a' n' c',
-    lookup_in (load_main fs main) a n = Some c -> lookup_in (load_main fs main) a' n' = Some c' ->
-    c_id c = c_id c' -> a = a' /\ n = n'.
-Proof. exact classes_distinct. Qed.
-Print Assumptions C25_one_class_set_per_file_partial.
-(* Not proved (full statement): created = 9 + sum of the rule counts of the files read, i.e.
-   classes are created only by reading a file, once per rule; compared on every case by the
-   correspondence (field C) and stated by the oracle instead. *)
+(* One set of classes per grammar file, however many import paths lead to it: two table
+   entries never share a class object (with C25_fqn an entry's class is determined by its
+   namespace and rule name), and a successful load creates, besides the 9 built-in classes,
+   exactly one class per rule of every file read (each file being read once,
+   C25_each_file_read_once). *)
+Theorem C25_one_class_set_per_file : forall fs main, main <> BASE ->
+  (forall a n c a' n' c',
+     lookup_in (load_main fs main) a n = Some c -> lookup_in (load_main fs main) a' n' = Some c' ->
+     c_id c = c_id c' -> a = a' /\ n = n') /\
+  (serr (load_main fs main) = None ->
+   created (load_main fs main) = length base_names + nrules_of fs (loads (load_main fs main))).
+Proof. exact one_class_set. Qed.
+Print Assumptions C25_one_class_set_per_file.
 
 (* Every grammar file is read at most once, however many import paths (or cycles) lead to
    it; holds for failed loads too. *)
@@ -124,11 +158,23 @@ Example C25_nonvacuous :
   aget BASE ex_diamond = None /\ serr (load_main ex_diamond [97]%N) = None /\
   backs (load_main ex_diamond [97]%N) = [] /\ length (links (load_main ex_diamond [97]%N)) = 6 /\
   loads (load_main ex_diamond [97]%N) = [[97]; [98]; [100]; [99]]%N /\
+  created (load_main ex_diamond [97]%N) = 9 + 8 /\ nrules_of ex_diamond [[97]; [98]; [100]; [99]]%N = 8 /\
   option_map cls_key (lookup (load_main ex_diamond [97]%N) [97]%N [87]%N) = Some ([99], [87])%N /\
   option_map cls_key (lookup (load_main ex_diamond [97]%N) [97]%N [88]%N) = Some ([98], [88])%N /\
   option_map cls_key (lookup (load_main ex_diamond [97]%N) [97]%N [89]%N) = Some ([97], [89])%N.
 Proof. vm_compute. repeat split; reflexivity. Qed.
 Print Assumptions C25_nonvacuous.
+
+(* a cyclic tree (mutual import and self-import) within the hypotheses of
+   C25_resolution_order_cycles, and the finding witness outside them *)
+Example C25_nonvacuous_harmless_cycle :
+  aget BASE ex_harmless = None /\ serr (load_main ex_harmless [97]%N) = None /\
+  backs (load_main ex_harmless [97]%N) = [([98], [97]); ([97], [97])]%N /\
+  safe ex_harmless (load_main ex_harmless [97]%N) = true /\
+  length (links (load_main ex_harmless [97]%N)) = 4 /\
+  safe ex_silent (load_main ex_silent [97]%N) = false.
+Proof. vm_compute. repeat split; reflexivity. Qed.
+Print Assumptions C25_nonvacuous_harmless_cycle.
 
 (* the hypothesis of C25_metamodel_getitem holds on a cyclic tree too (the finding witness) *)
 Example C25_nonvacuous_cycle :
